@@ -115,3 +115,93 @@ func VerifRunAndWait(arg string) {
 }
 
 func init() { vRegisterP("VerifRunAndWait", VerifRunAndWait) }
+
+// VerifLambdaRecovery (C14 for run-and-wait deployments): the core process stops
+// at a symbolic point of RunAndWait; a new instance runs recovery with all four
+// WAL handlers.  Every workload whose create-lambda entry was still uncommitted
+// must be removed again (record, container, usage) whatever its exit code, and
+// every node's usage equals the sum of its recorded workloads.
+// The crash point is "the n-th call of site S" (stable under native goroutine orders).
+// arg: occ=<max occurrence>,count=
+func VerifLambdaRecovery(arg string) {
+	maxOcc := vParam(arg, "occ", 4)
+	maxCount := vParam(arg, "count", 1)
+	c, st := vCluster(2, 1)
+	w := &vWorld{st: st, usage: map[string]int{}, capacity: map[string]int{}, applied: map[string]int{}, running: map[string]bool{},
+		slots: map[string]int{}, processing: map[string]int{}}
+	st.w = w
+	w.repair = true
+	c.rmgr = &vRmgr{w: w}
+	lg := &vWAL{w: w}
+	c.wal = lg
+	vRegisterHandlers(lg, c, st)
+	lg.Register(newCreateLambdaHandler(c.config, c, st))
+	eng := &vEngine{w: w}
+	for _, n := range []string{"a", "b"} {
+		st.nodes[n].Engine = eng
+		w.slots[n] = vInt("slots_"+n, 0, 2)
+	}
+	amount := vInt("amount", 0, 1<<30)
+	count := vInt("count", 1, maxCount)
+	w.exitCode = []int{0, 1, 255}[vChoose("exit_code", 3)]
+	w.crashMode = true
+	sites := []string{"", "wal.Log", "rmgr.Alloc", "store.CreateProcessing", "engine.VirtualizationCreate", "store.AddWorkload", "engine.VirtualizationStart",
+		"engine.VirtualizationInspect", "store.DeleteProcessing", "store.GetWorkloads", "engine.VirtualizationLogs", "engine.VirtualizationWait", "rmgr.SetNodeResourceUsage"}
+	w.siteFaults, w.siteCalls = map[string]map[int]bool{}, map[string]int{}
+	if site := sites[vChoose("crash_site", len(sites))]; site != "" { // "": no crash
+		w.siteFaults[site] = map[int]bool{vChoose("crash_occurrence", maxOcc) + 1: true}
+	}
+	opts := &types.DeployOptions{
+		Name: "app", Podname: "p1", Image: "img", Count: count, DeployStrategy: strategy.Auto, IgnorePull: true,
+		Entrypoint: &types.Entrypoint{Name: "entry"},
+		NodeFilter: &types.NodeFilter{Podname: "p1", Includes: []string{"a", "b"}},
+		Resources:  vRes(amount),
+	}
+	if _, ch, err := c.RunAndWait(context.Background(), opts, nil); err == nil {
+		for range ch {
+		}
+	}
+	vDrain()
+	crashed := w.frozen
+	vObserve("crash_site", w.site)
+	vCover("crashed-mid-run-and-wait", crashed)
+	var pending []string // lambda workloads logged and not committed when the process died
+	for _, ev := range lg.events {
+		if !ev.done && ev.typ == eventCreateLambda {
+			pending = append(pending, string(ev.item))
+		}
+	}
+	vCover("lambda-entry-pending-at-restart", len(pending) > 0)
+	// a crash inside the REMOVAL of a finished lambda (record gone, container not yet) is a crash of
+	// a removal, not of a deployment: outside C14's statement
+	removing := w.removalBegan
+	// ---- a new core instance ----
+	w.frozen, w.faultAt, w.crashMode, w.siteFaults = false, 0, false, nil
+	st.held = map[string]bool{}
+	c2 := &Calcium{store: st, rmgr: c.rmgr, wal: lg, config: c.config}
+	c2.pool = c.pool
+	lg.handlers = nil
+	vRegisterHandlers(lg, c2, st)
+	lg.Register(newCreateLambdaHandler(c.config, c2, st))
+	lg.Recover(context.Background())
+	vDrain()
+	if !vIsSymbolic() {
+		time.Sleep(50 * time.Millisecond)
+	}
+	vObserve("recovery_trace", lg.trace)
+	for _, id := range pending {
+		if removing {
+			continue
+		}
+		_, recorded := st.workloads[id]
+		_, has := w.applied[id]
+		vAssert("C14/recovered-lambda-record-removed", !recorded)
+		vAssert("C14/recovered-lambda-container-removed", !has)
+	}
+	for _, n := range []string{"a", "b"} {
+		vAssert("C14/usage-equals-sum-of-recorded-workloads-after-recovery", w.usage[n] == vLedgerSumOn(w, n))
+	}
+	vAssert("C14/no-in-progress-marker-after-recovery", len(w.processing) == 0)
+}
+
+func init() { vRegisterP("VerifLambdaRecovery", VerifLambdaRecovery) }
